@@ -113,6 +113,62 @@ def py_scan(m, codes, float_attrs):
     return hits, extra
 
 
+def f32_evidence(m, limit=6):
+    """where a double-precision model carries values that went through float32: FLOAT attributes whose value is the float32
+    rounding of a shorter decimal (ONNX float attributes are single precision by definition), and small DOUBLE constants
+    all of whose entries are float32 values with at least one such rounded decimal"""
+    import numpy as np
+    import onnx
+    from onnx import numpy_helper
+    AP = onnx.AttributeProto
+    out = []
+
+    def rounded_decimal(v):
+        f = np.float32(v)
+        return bool(np.isfinite(f)) and float(f) == float(v) and float(str(f)) != float(v)
+
+    def tensor(t, where):
+        if t.data_type != onnx.TensorProto.DOUBLE:
+            return
+        n = int(np.prod(t.dims)) if len(t.dims) else 1
+        if n == 0 or n > 4096:
+            return
+        try:
+            a = numpy_helper.to_array(t).reshape(-1)
+        except Exception:
+            return
+        nz = a[np.isfinite(a) & (a != 0)]
+        if nz.size and np.array_equal(nz, nz.astype(np.float32).astype(np.float64)):
+            for x in nz[:64]:
+                if rounded_decimal(float(x)):
+                    out.append(f"{where}: DOUBLE constant holding float32-rounded values, e.g. {float(x)!r} = float32({np.float32(x)})")
+                    return
+
+    def nodes(ns, where):
+        for n in ns:
+            for a in n.attribute:
+                if a.type == AP.FLOAT and n.op_type != "Constant" and rounded_decimal(a.f):
+                    out.append(f"{where}:{n.op_type}({n.name}).{a.name} = {a.f!r}: float attribute = float32({np.float32(a.f)})")
+                if a.type == AP.FLOATS and n.op_type != "Constant" and any(rounded_decimal(x) for x in a.floats):
+                    out.append(f"{where}:{n.op_type}({n.name}).{a.name}: float-list attribute with float32-rounded decimals")
+                if a.type == AP.TENSOR:
+                    tensor(a.t, f"{where}:{n.op_type}({n.name}).{a.name}")
+                if a.type == AP.GRAPH:
+                    graph(a.g, where + "/" + n.name)
+                if a.type == AP.GRAPHS:
+                    for sg in a.graphs:
+                        graph(sg, where + "/" + n.name)
+
+    def graph(g, where):
+        for t in g.initializer:
+            tensor(t, f"{where}:initializer {t.name}")
+        nodes(g.node, where)
+    graph(m.graph, "main")
+    for f in m.functions:
+        nodes(f.node, "function " + f.name)
+    return out[:limit]
+
+
 # =============================================================================== triage: does the testcase ask for float64?
 _SRC_CACHE = {}
 
@@ -474,6 +530,10 @@ def export_worker(job):
             out["requests_f64"] = (False, "")
     if dp and numeric:
         try:
+            out["f32_evidence"] = f32_evidence(m)
+        except Exception as e:  # noqa
+            out["f32_evidence"] = [f"(evidence scan failed: {type(e).__name__})"]
+        try:
             out["num"] = _numeric(fn, m, key, vals, params, seed)
         except Exception as e:  # noqa
             out["num"] = {"status": "skip:harness-error", "detail": f"{type(e).__name__}: {str(e)[:200]}"}
@@ -504,7 +564,7 @@ def _flag_fn_unsupported(x):
 
 def flag_worker(job):
     """drives the REAL to_onnx / context managers; returns observations only"""
-    seed, reg_idents = job
+    seed, reg_idents, combos, with_managers = job
     import jax
     import numpy as np
     import exports
@@ -530,8 +590,8 @@ def flag_worker(job):
         obs["to_onnx"].append({"case": label, "prev": prev, "dp": dp, "outcome": outcome, "after": after})
         setf(False)
 
-    for prev in (False, True):
-        for dp in (False, True):
+    for prev, dp in combos:
+        if True:
             attempt("ok", lambda: to_onnx(_flag_fn_ok, [(2, 3)], enable_double_precision=dp), prev, dp)
             attempt("callable-raises", lambda: to_onnx(_flag_fn_raises, [(2, 3)], enable_double_precision=dp), prev, dp)
             attempt("lowering-fails", lambda: to_onnx(_flag_fn_unsupported, [(2, 3)], enable_double_precision=dp), prev, dp)
@@ -571,7 +631,7 @@ def flag_worker(job):
                     setf(False)
     # the managers themselves, with bodies that leave the flag in any state and exit either way
     bodies = {0: lambda s: s, 1: lambda s: not s, 2: lambda s: True, 3: lambda s: False}
-    for name, mgr in (("temporary_x64", ui._temporary_x64), ("force_jax_x64", ca._force_jax_x64)):
+    for name, mgr in ((("temporary_x64", ui._temporary_x64), ("force_jax_x64", ca._force_jax_x64)) if with_managers else ()):
         for arg in (False, True):
             for prev in (False, True):
                 for bk, bf in bodies.items():
@@ -600,7 +660,8 @@ def _np_dtypes():
     return [np.dtype(ml_dtypes.bfloat16) if n == "bfloat16" else np.dtype(n) for n in NP_ENUM]
 
 
-def policy_tie(ctx):
+def policy_rows_worker(_):
+    """runs the REAL policy functions on the whole finite domain; returns the observation rows"""
     import types
     import warnings
     import numpy as np
@@ -685,6 +746,10 @@ def policy_tie(ctx):
                         except Exception:
                             r = None
                         rows["closed"].append((i, t, df, flag, r))
+    return rows
+
+
+def policy_tie(ctx, rows):
     z = zlit
     oz = lambda v: optlit(v, zlit)  # noqa
     txt = common.CASES_HEADER + "From J2OGen Require Import GenPrecision.\nFrom J2O Require Import Precision.\n"
@@ -755,7 +820,7 @@ def coq_verdicts(ctx, name, items):
             t.append(f"Definition m_{off + k} : omodel := {term}.")
             t.append(f"Eval vm_compute in (first_double m_{off + k}, first_single m_{off + k}, table_closed m_{off + k}).")
         return "\n".join(t) + "\n"
-    per_file = 25
+    per_file = 40
     res = common.coq_eval_batches(ctx, name, EVAL_HEADER, items, render, per_file=per_file, jobs=8, timeout=1500)
     verdicts = []
     pat = re.compile(r'=\s*\(\s*(None|Some\s+"((?:[^"]|"")*)"(?:%string)?)\s*,\s*(None|Some\s+"((?:[^"]|"")*)"(?:%string)?)\s*,'
@@ -800,37 +865,45 @@ def run(ctx):
     ]
     import time
     tm = {}
-    t0 = time.time()
-    common.build_props(ctx, "C09", GEN_UNITS)
-    tm["build_props"] = round(time.time() - t0, 1)
-
-    # ---- (a) exhaustive tie of every translated policy function
-    t0 = time.time()
-    n_policy = policy_tie(ctx)
-    tm["policy_tie"] = round(time.time() - t0, 1)
-    t0 = time.time()
-
-    # ---- spawn the workers
+    # ---- spawn the workers first: exports, numeric comparisons, flag runs and the policy observations proceed while the
+    #      parent regenerates gen/ and builds the proofs
     pp_ = os.environ.get("PYTHONPATH", "")
     for d in (HERE, os.path.join(common.VERIF, "tools")):
         if d not in pp_.split(":"):
             pp_ = d + (":" + pp_ if pp_ else "")
     os.environ["PYTHONPATH"] = pp_
     procs = min(14, os.cpu_count() or 4)
-    n_single = 56 if quick else None
-    n_double = 44 if quick else 1300
+    n_single = 56 if quick else 1700
+    n_double = 44 if quick else 1100
+    t_pool = time.time()
     with get_context("spawn").Pool(procs, initializer=_init_worker, maxtasksperchild=60) as pool:
+        rows_async = pool.apply_async(policy_rows_worker, (0,))
         total = pool.apply(_count, (0,))
         idx_s = exports.select_indices(total, n_single, ctx.seed)
         idx_d = exports.select_indices(total, n_double, ctx.seed + 1)
         jobs = [("reg", i, False, ctx.seed, False) for i in idx_s] + [("extra", n, False, ctx.seed, False) for n in exports.extra_names()]
         jobs += [("reg", i, True, ctx.seed, True) for i in idx_d] + [("extra", n, True, ctx.seed, True) for n in exports.extra_names()]
-        flag_idents = exports.select_indices(total, 6 if quick else 40, ctx.seed + 2)
-        flag_async = pool.apply_async(flag_worker, ((ctx.seed, flag_idents),))
-        results = pool.map(export_worker, jobs, chunksize=max(1, min(8, len(jobs) // (procs * 6))))
-        flag_obs = flag_async.get(timeout=1500)
+        flag_idents = exports.select_indices(total, 4 if quick else 40, ctx.seed + 2)
+        combos = [(False, False), (False, True), (True, False), (True, True)]
+        flag_async = [pool.apply_async(flag_worker, ((ctx.seed, flag_idents, [c], k == 0),)) for k, c in enumerate(combos)]
+        res_async = pool.map_async(export_worker, jobs, chunksize=max(1, min(6, len(jobs) // (procs * 8))))
 
-    tm["exports+numeric+flag(workers)"] = round(time.time() - t0, 1)
+        t0 = time.time()
+        common.build_props(ctx, "C09", GEN_UNITS)
+        tm["build_props"] = round(time.time() - t0, 1)
+
+        # ---- (a) exhaustive tie of every translated policy function
+        t0 = time.time()
+        n_policy = policy_tie(ctx, rows_async.get(timeout=1500))
+        tm["policy_tie"] = round(time.time() - t0, 1)
+
+        results = res_async.get(timeout=6000)
+        flag_obs = {"to_onnx": [], "managers": [], "nested": []}
+        for fa in flag_async:
+            o = fa.get(timeout=1500)
+            for k in flag_obs:
+                flag_obs[k] += o[k]
+    tm["pool_total"] = round(time.time() - t_pool, 1)
     t0 = time.time()
     singles = [r for r in results if not r["dp"]]
     doubles = [r for r in results if r["dp"]]
@@ -845,7 +918,9 @@ def run(ctx):
     disagree, open_tables = [], []
     for r, v in zip(exported, verdicts):
         r["verdict"] = v
-        if v is None:
+        if v is None:      # the Coq side is broken: fall back to the Python scan so that a concrete failing input is still found
+            r["verdict"] = (r["py_hits"][0] if (not r["dp"] and r["py_hits"]) else None,
+                            r["py_hits"][0] if (r["dp"] and r["py_hits"]) else None, True)
             continue
         fd, fs, closed = v
         mine = fs if r["dp"] else fd
@@ -1026,7 +1101,7 @@ def replay(path):
         print("relative error ORT vs JAX(x64):", num)
         return 1 if bad else 0
     if kind == "flag":
-        obs = flag_worker((0, []))
+        obs = flag_worker((0, [], [(False, False), (False, True), (True, False), (True, True)], False))
         bad = [o for o in obs["to_onnx"] if o["after"] != o["prev"]] + [o for o in obs["nested"] if o["after"] != o["prev"]]
         print(bad)
         return 1 if bad else 0
